@@ -337,6 +337,7 @@ namespace vf {
       sa.sa_flags = SA_ONSTACK | SA_RESETHAND;
       for (int sig : { SIGSEGV, SIGABRT, SIGFPE, SIGBUS, SIGILL, SIGPROF }) sigaction(sig, &sa, nullptr);
       // hang watchdog: re-armed by every Options::mine() call
+      if (o.thorough()) const_cast<Options&>(o).hang_s = 900;      // thorough units of work are larger, and the machine may be busy
       if (const char* h = std::getenv("VERIF_HANG_S")) const_cast<Options&>(o).hang_s = unsigned(std::atoi(h));
       const_cast<Options&>(o).watchdog = o.replay.empty();
       if (o.watchdog) { const_cast<Options&>(o).last_kick = std::chrono::steady_clock::now() - std::chrono::seconds(10); o.kick(); }
